@@ -32,7 +32,9 @@
 (*  B6 the reader recovers the segments, the label list and the connections  *)
 (*     (labels present: whenever the two labels of every disconnected joint  *)
 (*     differ - the file has no other mark; no labels: a joint is connected  *)
-(*     iff the neighbouring q-points coincide).                              *)
+(*     iff the neighbouring q-points coincide);                              *)
+(*  B7 phonopy-bandplot run on the file draws the panels / ticks / tick      *)
+(*     labels that follow from B6 (new style and --legacy).                  *)
 EXTENDS IntLinAlg
 
 V3(v) == <<v[1], v[2], v[3]>>
@@ -66,6 +68,27 @@ ReaderConn(c) == IF ReqLabelsOut(c).has THEN [s \in 1..NSeg(c) |-> s < NSeg(c) /
 Unambiguous(c) == \A s \in 1..(NSeg(c) - 1) : ~ EffConn(c)[s] => ReqPairs(c)[s][2] # ReqPairs(c)[s + 1][1]
 WellFormed(c) == (c.args.conn.has /\ ~ c.args.legacy) => (Len(c.args.conn.v) = NSeg(c) /\ ~ c.args.conn.v[NSeg(c)])
 
+(* what phonopy-bandplot draws from the file.  New style: one panel per run of *)
+(* segments closed by a disconnected joint, one tick per special point of the *)
+(* panel, labelled from the label list in order ("" without labels).  Legacy  *)
+(* style: one axis, a tick at every segment boundary; a boundary where two    *)
+(* different special points meet shows both as "A|B".                        *)
+IdxOf(conn, s) == 1 + SumTo(Weight(conn), s - 1)
+RECURSIVE PanelsFrom(_, _, _, _)
+PanelsFrom(conn, lab, s, start) ==
+  IF s > Len(conn) THEN <<>>
+  ELSE IF ~ conn[s]
+       THEN <<[k \in 1..(s - start + 2) |-> IF lab.has THEN lab.v[IdxOf(conn, start) + k - 1] ELSE ""]>> \o PanelsFrom(conn, lab, s + 1, s + 1)
+       ELSE PanelsFrom(conn, lab, s + 1, start)
+ReqScriptPanels(c) == PanelsFrom(ReaderConn(c), ReqLabelsOut(c), 1, 1)
+ReqOldTicks(c) ==
+  IF ~ ReqLabelsOut(c).has THEN [k \in 1..(NSeg(c) + 1) |-> ""]
+  ELSE [k \in 1..(NSeg(c) + 1) |->
+          IF k = 1 THEN ReqPairs(c)[1][1]
+          ELSE IF k = NSeg(c) + 1 THEN ReqPairs(c)[NSeg(c)][2]
+          ELSE IF ReqPairs(c)[k - 1][2] = ReqPairs(c)[k][1] THEN ReqPairs(c)[k][1]
+          ELSE ReqPairs(c)[k - 1][2] \o "|" \o ReqPairs(c)[k][1]]
+
 Judge(c, o, n) ==
   CASE n = "Conn" -> o.conn = ReqConnOut(c) /\ o.legacy = c.args.legacy
     [] n = "Labels" -> o.labels = ReqLabelsOut(c)
@@ -87,8 +110,10 @@ Judge(c, o, n) ==
     [] n = "ReaderLabels" -> (ReqLabelsOut(c).has /\ Unambiguous(c)) => o.rd.labels = Some(ReqLabelsOut(c).v)
     [] n = "ReaderNoLabels" -> ~ ReqLabelsOut(c).has => o.rd.labels = None
     [] n = "ReaderConn" -> (ReqLabelsOut(c).has => Unambiguous(c)) => o.rd.conn = ReaderConn(c)
+    [] n = "ScriptPanels" -> (o.sp.has /\ (ReqLabelsOut(c).has => Unambiguous(c))) => (o.sp.panels = ReqScriptPanels(c) /\ o.sp.pos)
+    [] n = "ScriptLegacy" -> o.so.has => (o.so.ticks = ReqOldTicks(c) /\ o.so.pos)
 Names == {"Conn", "Labels", "Increments", "Continuity", "Monotone", "Accumulated", "Qpoints", "Shapes", "Tuple",
-          "YamlCounts", "YamlLabels", "YamlValues", "ReaderSegments", "ReaderLabels", "ReaderNoLabels", "ReaderConn"}
+          "YamlCounts", "YamlLabels", "YamlValues", "ReaderSegments", "ReaderLabels", "ReaderNoLabels", "ReaderConn", "ScriptPanels", "ScriptLegacy"}
 
 (* ------------------------------------------------------------ machine ---- *)
 (* one action per step of the code.  code.lastPair: which comparison         *)
